@@ -277,7 +277,7 @@ func (c *C20) AfterTx(w *World, t *TxCtx) {
 		// R1: the owner is the only required signer. A tx whose SubmitTx messages all name the tx signer as owner must pass the signature rule.
 		all := true
 		for _, s := range subs {
-			if s.Owner != t.Signer {
+			if canonAddr(s.Owner) != t.Signer {
 				all = false
 			}
 		}
@@ -296,8 +296,10 @@ func (c *C20) AfterTx(w *World, t *TxCtx) {
 	}
 	for i, s := range subs {
 		p := pk[i]
-		wantPort := ControllerPort(t.Signer)
-		if s.Owner != t.Signer {
+		// the port derives from the owner string as the message spells it (an upper-case spelling of
+		// the same address names another port, hence another interchain account of the same key holder)
+		wantPort := ControllerPort(s.Owner)
+		if canonAddr(s.Owner) != t.Signer {
 			w.Violate("R1", "submit-for-foreign-owner-accepted", "SubmitTx naming owner %s was accepted in a tx signed by %s", s.Owner, t.Signer)
 			return
 		}
@@ -342,7 +344,7 @@ func (c *C20) AfterTx(w *World, t *TxCtx) {
 			return
 		}
 		// R5: the host attributes execution to the interchain account of (connection, port): its owner must be the signer
-		if owner := strings.TrimPrefix(p.Port, "icacontroller-"); owner != t.Signer {
+		if owner := strings.TrimPrefix(p.Port, "icacontroller-"); canonAddr(owner) != t.Signer {
 			w.Violate("R5", "executed-through-foreign-interchain-account", "the host executes the message through the interchain account of %s, the submitting signer is %s", owner, t.Signer)
 			return
 		}
